@@ -274,7 +274,7 @@ J gen_tunnel(uint64_t seed, const J &ov)
 			if (t > W) t = 0.2 + r.uniform() * W;
 			J op = J::obj(); op.set("t", (long long)(t * 1e6)); op.set("op", "tun"); op.set("at", "srv"); op.set("ser", (long long)++ser);
 			op.set("dst", "c0"); op.set("src", "ext");
-			if (r.chance(0.45)) { op.set("len", (int)r.range(2 * F + 20, std::min(14 * F, 1500))); op.set("body", "nested"); if (r.chance(0.8)) op.set("align", r.chance(0.5) ? J("auto") : J(F)); }
+			if (r.chance(0.45)) { op.set("len", (int)r.range(2 * F + 20, std::min(14 * F, 1500))); op.set("body", "nested"); if (r.chance(0.8)) op.set("align", r.chance(0.5) ? J("auto") : J(F)); if (F <= 90 && r.chance(0.35)) { op.set("align", F); op.set("tail17", true); } }
 			else { op.set("len", (int)r.range(40, std::max(41, F - 30))); static const char *bodies[4] = {"rnd", "zero", "ff", "text"}; op.set("body", bodies[r.range(0, 3)]); }
 			ops.push(op);
 		}
